@@ -196,7 +196,10 @@ func lxStream(xs []int, fail error) stream.Stream[int] {
 			return v, nil
 		}
 		return 0, fail
-	})
+	}, stream.WithOpenFuncOption(func(context.Context) error {
+		i = 0 // every materialisation starts over, like FromSlice (a Lazy over this stream may be evaluated again)
+		return nil
+	}))
 }
 
 // ---------------------------------------------------------------- named user functions
@@ -704,25 +707,38 @@ func lxReducer(name string) func(acc, v int) (int, error) {
 	return nil
 }
 
-// lxLazyBoth reads a terminal's Lazy result through Get and GetOptional (a fresh stream for each).
+// lxLazyBoth reads a terminal's Lazy result through Get and GetOptional (a fresh stream for each), and then evaluates ONE
+// Lazy value four times (Get, GetOptional, Get, GetOptional): over options a value can be asked for any number of times
+// with the same answer, so a Lazy whose pipeline is consumed by its first evaluation shows as a trailing `| again …`.
 func lxLazyBoth[T any](ctx context.Context, mk func() lazy.Lazy[T], f func(T) string) string {
-	v, err := mk().Get(ctx)
-	var a, b string
-	if err != nil {
-		a = "err " + lxClass(err)
-	} else {
-		a = "ok " + f(v)
+	get := func(l lazy.Lazy[T]) string {
+		v, err := l.Get(ctx)
+		if err != nil {
+			return "err " + lxClass(err)
+		}
+		return "ok " + f(v)
 	}
-	o, err := mk().GetOptional(ctx)
-	switch {
-	case err != nil:
-		b = "err " + lxClass(err)
-	case o == nil:
-		b = "ok nil"
-	default:
-		b = "ok " + f(*o)
+	opt := func(l lazy.Lazy[T]) string {
+		o, err := l.GetOptional(ctx)
+		switch {
+		case err != nil:
+			return "err " + lxClass(err)
+		case o == nil:
+			return "ok nil"
+		default:
+			return "ok " + f(*o)
+		}
 	}
-	return "get " + a + " | opt " + b
+	a := get(mk())
+	b := opt(mk())
+	res := "get " + a + " | opt " + b
+	one := mk()
+	for i := 0; i < 2; i++ {
+		if a2, b2 := get(one), opt(one); a2 != a || b2 != b {
+			return res + fmt.Sprintf(" | again#%d get %s | opt %s", i+1, a2, b2)
+		}
+	}
+	return res
 }
 
 func lxExecTerm(toks []string) string {
